@@ -766,3 +766,25 @@ pub fn contract_findings(rt: &RunTrace) -> Vec<String> {
     }
     v
 }
+
+/// Compare the event logs of two executions: events logged by tasks must be identical and in the
+/// same order; events logged by the teardown of the execution (no current task: destructors of
+/// statics, thread-locals and stacks of unfinished tasks) are compared as a multiset, because
+/// the runtime drops per-execution / per-task storage of unfinished tasks in hash-map order,
+/// which no property statement constrains.
+pub fn events_diff(a: &ExecTrace, b: &ExecTrace) -> Option<String> {
+    let ta: Vec<_> = a.events.iter().filter(|e| e.task != u32::MAX).collect();
+    let tb: Vec<_> = b.events.iter().filter(|e| e.task != u32::MAX).collect();
+    if ta != tb {
+        let n = ta.iter().zip(tb.iter()).position(|(x, y)| x != y).unwrap_or(ta.len().min(tb.len()));
+        return Some(format!("event logs differ at event {}: {:?} vs {:?}", n, ta.get(n), tb.get(n)));
+    }
+    let mut da: Vec<String> = a.events.iter().filter(|e| e.task == u32::MAX).map(|e| format!("{}{}={}", e.kind, e.op, e.val)).collect();
+    let mut db: Vec<String> = b.events.iter().filter(|e| e.task == u32::MAX).map(|e| format!("{}{}={}", e.kind, e.op, e.val)).collect();
+    da.sort();
+    db.sort();
+    if da != db {
+        return Some(format!("teardown events differ: {:?} vs {:?}", da, db));
+    }
+    None
+}
